@@ -27,7 +27,10 @@ type Query {
   title: String
   top: Named
   ghost: String
+  pair(a: Int!, b: Int!, c: Int!, d: Int!): Int
+  box(i: Box): Int
 }
+input Box { w: Int! h: Int! d: Int! k: Int! }
 interface Named { name: String }
 type Artist implements Named { name: String songs: [Song] rating: Int origin: String }
 type Song implements Named { name: String duration: Int }
@@ -102,6 +105,8 @@ var c12Reqs = []c12Req{
 	{`{ top { name } }`, nil, "iface"},
 	{`{ ghost }`, nil, "unbacked-field"},
 	{`{ title ghost }`, nil, "unbacked-field2"},
+	{`{ pair }`, nil, "four-required-missing"},
+	{`{ box(i: {}) }`, nil, "four-required-input-fields-missing"},
 }
 
 // requests for the interface-strategy root (argument formation goes through formArgs there)
@@ -116,6 +121,10 @@ var c12IfaceReqs = []c12Req{
 	{`{ artists { ...F } } fragment F on Artist { name origin }`, nil, "i.fragment"},
 	{`{ artist(name: "a1", zz: 1) { name } }`, nil, "i.unknown-arg"},
 	{`{ ghost title }`, nil, "i.unbacked-field"},
+	{`{ pair }`, nil, "i.four-required-missing"},
+	{`{ pair(a: 1) title }`, nil, "i.three-required-missing"},
+	{`{ box(i: {}) }`, nil, "i.four-required-input-fields-missing"},
+	{`{ box(i: {w: 1}) }`, nil, "i.three-required-input-fields-missing"},
 }
 
 type c12INode struct {
